@@ -93,6 +93,18 @@ func ExecWriter(spec *WriterSpec, sink *Sink) *WriteResult { return ExecWriterKi
 // ExecWriterKind is ExecWriter with the destination presented as the given
 // sink kind ("w" or "wx").
 func ExecWriterKind(spec *WriterSpec, sink *Sink, kind string) *WriteResult {
+	return execWriter(spec, sink, kind, false)
+}
+
+// ExecWriterShared is ExecWriter for a caller that hands the SAME record values
+// to the writer that other callers hand to theirs (no private copy per Add):
+// records are inputs, and sharing them read-only between instances is
+// ordinary use.
+func ExecWriterShared(spec *WriterSpec, sink *Sink) *WriteResult {
+	return execWriter(spec, sink, "w", true)
+}
+
+func execWriter(spec *WriterSpec, sink *Sink, kind string, shared bool) *WriteResult {
 	sh := GetShape(spec.Shape)
 	res := &WriteResult{Sink: sink}
 	var w Writer
@@ -119,7 +131,14 @@ func ExecWriterKind(spec *WriterSpec, sink *Sink, kind string) *WriteResult {
 		case "add":
 			rec := op.Val(sh)
 			sink.CurAPI = "Add"
-			_, pan, _ := guard(func() error { w.Add(CopyRec(rec)); return nil })
+			_, pan, _ := guard(func() error {
+				if shared {
+					w.Add(rec)
+				} else {
+					w.Add(CopyRec(rec))
+				}
+				return nil
+			})
 			if pan != "" {
 				res.APIs = append(res.APIs, mkAPI("Add", nil, pan))
 				res.Stopped = true
